@@ -108,7 +108,8 @@ static void build_state(int maxchain) {
   XV_ASSUME(inv_B(g_B, maxchain));
   mon_prev_state = g_B->state; mon_version0 = BS_version(g_B->state);
   mon_bad_slot_store = mon_bad_state_step = mon_bad_item_store = mon_bad_order = mon_lock_dropped = 0;
-  for (int p = 0; p < POOL; ++p) mon_next_store_v0[p] = mon_unlinked_v0[p] = mon_unlinked[p] = 0;
+  for (int p = 0; p < POOL; ++p) { mon_next_store_v0[p] = mon_unlinked_v0[p] = mon_unlinked[p] = mon_published[p] = 0; mon_next_shadow[p] = POOL_ITEM_C(p)->next; }
+  mon_bad_publish = 0; mon_publications = 0; mon_prev_head = g_B->head;
   mon_state_stores = mon_unlocks = mon_slot_stores = mon_head_stores = 0;
 }
 static _Bool other_unchanged(void) {
@@ -130,6 +131,7 @@ static _Bool pool_ok(const int* role) {
 }
 static uint32_t version_delta(bstate_t now) { return (BS_version(now) - mon_version0) & (uint32_t)((((uint64_t)1) << (32 - version_shift)) - 1); }
 #define GUARANTEE_OK (!mon_bad_slot_store && !mon_bad_state_step && !mon_bad_item_store && !mon_lock_dropped)
+#define PUBLISH_OK (!mon_bad_publish)
 
 /* ------------------------------------------------------------------ do_extract / erase / extract */
 struct pre { struct look k, g; bucket_t B0; int size0; };
@@ -164,6 +166,7 @@ static void check_removed(struct pre s, int expect_role_change) {
   XV_OBL("vhm.extract.pool", pool_ok(role) && eb_at_ok);
   XV_OBL("vhm.remove.version_bumped", version_delta(g_B->state) >= 1 && version_delta(g_B->state) <= 2);
   XV_OBL("vhm.remove.version_bumped", GUARANTEE_OK);
+  XV_OBL("vhm.emplace.publish_order", PUBLISH_OK && mon_publications == 0);
   XV_OBL("vhm.ops.unlock", !BS_is_locked(g_B->state) && mon_unlocks == 1);
   XV_OBL("vhm.sync.release", !mon_bad_order && XV_IS_RELEASE(mon_last_state_order));
   XV_OBL("vhm.ops.frame", other_unchanged());
@@ -176,6 +179,7 @@ static void check_unchanged(struct pre s) {
   for (int p = 0; p < POOL; ++p) XV_OBL("vhm.ops.frame", !mon_unlinked_v0[p]);
   XV_OBL("vhm.ops.unlock", !BS_is_locked(g_B->state) && !mon_lock_dropped);
   XV_OBL("vhm.remove.version_bumped", GUARANTEE_OK);
+  XV_OBL("vhm.emplace.publish_order", PUBLISH_OK && mon_publications == 0);
 }
 
 void h_do_extract(void) {
@@ -315,6 +319,9 @@ void h_emplace(void) {
   XV_OBL("vhm.remove.version_bumped", GUARANTEE_OK && version_delta(g_B->state) == 0);   /* an insertion needs no version bump, but must obey the guarantee */
   XV_OBL("vhm.sync.release", !mon_bad_order);
   XV_OBL("vhm.ops.frame", other_unchanged());
+  /* a new extension item is made reachable exactly once, complete (key, value, next == the head it replaces), by a release store, and is not
+     written afterwards; an array slot is written before the item count that makes it visible is published (slot stores after that need a marker) */
+  XV_OBL("vhm.emplace.publish_order", PUBLISH_OK && mon_publications == ((r && in_ic == NSLOT) ? 1u : 0u));
   if (!r) {
     /* found: get_or_emplace hands out the existing element and changes nothing */
     check_unchanged(s);
